@@ -605,12 +605,24 @@ impl Xot {
         };
         let mut fullname_serializer = FullnameSerializer::new(self, vec![]);
         let mut missing_namespace_ids = HashSet::default();
+        // elements in no namespace that sit in the scope of a default
+        // namespace; the serializer undeclares the default namespace for
+        // those, so nothing below them can rely on it
+        let mut undeclared_default = Vec::new();
         for edge in self.traverse(node) {
             match edge {
                 NodeEdge::Start(node) => {
                     let element = self.element(node);
                     if let Some(element) = element {
                         fullname_serializer.push(self.namespace_declarations(node));
+                        if self.namespace_for_name(element.name_id) == self.no_namespace_id
+                            && fullname_serializer.has_default_namespace()
+                            && !self.namespaces(node).contains_key(self.empty_prefix_id)
+                        {
+                            fullname_serializer
+                                .push(vec![(self.empty_prefix_id, self.no_namespace_id)]);
+                            undeclared_default.push(node);
+                        }
                         let element_fullname =
                             fullname_serializer.element_fullname(element.name_id);
                         if element_fullname.is_err() {
@@ -629,6 +641,10 @@ impl Xot {
                 }
                 NodeEdge::End(node) => {
                     if self.is_element(node) {
+                        if undeclared_default.last() == Some(&node) {
+                            undeclared_default.pop();
+                            fullname_serializer.pop(true);
+                        }
                         fullname_serializer.pop(self.has_namespace_declarations(node));
                     }
                 }
